@@ -123,7 +123,13 @@ impl Exec {
         let fuse_armed = obs::trace_fuse() > 0;
         let ev0 = obs::events_len();
         obs::set_quiet_panics(true);
+        // colours before the call, to know which arm of the sweep a destructor fault hits
+        let mut pre_colours: Option<gc_arena::verif::Snapshot> = None;
         if let Some(k) = self.pending_sweep_fuse.take() {
+            pre_colours = Some(obs::untracked(|| match &arena {
+                AnyArena::A(x) => x.verif_snapshot(),
+                AnyArena::B(x) => x.verif_snapshot(),
+            }));
             obs::arm_drop_fuse(k);
         }
         let res = {
@@ -152,9 +158,16 @@ impl Exec {
                     self.fault_injected = true;
                     self.cov.sweep_drop_faults += 1;
                     let id = drop_fired.unwrap();
+                    // an unreachable, not weakly marked object is unlinked before its destructor runs:
+                    // if that unwinds the block stays allocated for ever.  A weakly marked object stays
+                    // on the list as a shell and is released like any other shell later on, so it gets
+                    // no exemption (colour 1 = weakly marked in the snapshot taken before the call).
                     obs::untracked(|| {
                         if let Some(o) = self.model.objs.iter_mut().find(|o| o.id == id && o.arena == a8) {
-                            o.fault_exempt = true;
+                            let weakly_marked = pre_colours.as_ref().and_then(|s| s.color_of(o.addr)) == Some(1);
+                            if !weakly_marked {
+                                o.fault_exempt = true;
+                            }
                         }
                     });
                 } else if msg.contains("attempt to") {
